@@ -23,7 +23,7 @@ ASSUMPTIONS = [
     "base files are drawn by a seeded random.Random owned by the enumerating driver; the fault product per base file is complete",
 ]
 REQUIRED_CLASSES = ["fault=byte", "fault=cutbin", "fault=cuttext", "fault=append", "fault=keybit", "framing=bf3", "framing=bec2",
-                    "region=dirsize", "region=entry", "region=payload", "region=header", "base.last-payload-trailing00", "cut.drops-only-00", "payload>4096"]
+                    "region=dirsize", "region=entry", "region=payload", "region=header", "base.last-payload-trailing00", "cut.drops-only-00", "payload>4096", "base.enc-tag=fwkey"]
 
 _BASES = {}
 
@@ -52,6 +52,10 @@ def gen_base(rng, idx):
         desc = [(0xC3, b"\x03"), (0xC2, b"\x02")] if enc else [(rng.choice([0xC1, 0xC3, 0xC4, 0x10]), _rb(rng, rng.randrange(0, 4)))] * rng.randrange(0, 2)
         if not enc and rng.randrange(3) == 0:
             desc = desc + [(0xC8, _rb(rng, rng.randrange(0, 6)))]
+        if not enc and rng.randrange(2) == 0:
+            # the ENC tag with a value that does NOT mean session-key encryption (plain, firmware key, unknown, empty, two bytes)
+            desc = desc + [(0xC2, rng.choice([b"\x00", b"\x01", b"\x01", b"\x03", b"", b"\x00\x02"]))]
+            rng_tag = True
         alen = rng.choice([None, None, max(1, len(blob) - 1), 1])
         comps.append(dict(desc=desc, blob=blob, actual_len=alen, enc=enc))
     framing = "bf3" if idx % 2 == 0 else "bec2"
@@ -190,6 +194,8 @@ def check(case, rec):
     rec.cls("framing=" + base["framing"])
     if any(len(c["blob"]) > 4096 for c in base["comps"]):
         rec.cls("payload>4096")
+    if any(t == 0xC2 and v == b"\x01" for c in base["comps"] for t, v in c["desc"]):
+        rec.cls("base.enc-tag=fwkey")
     if fault[0] == "none":
         return
     if base["comps"][-1]["blob"].endswith(b"\0") and not base["comps"][-1]["enc"]:
